@@ -462,6 +462,9 @@ func gen(x *explore.C, p *profile) Case {
 	if p.inline && r.Indent != 0 {
 		r.Inline = x.Bool("inline")
 	}
+	if r.Indent != 0 {
+		r.EOL = x.Choose("eol", 3)
+	}
 	r.BrForm = explore.Pick(x, "brForm", p.brForms...)
 	if p.misc {
 		r.XMLDecl = x.Bool("xmlDecl")
@@ -768,6 +771,9 @@ func genText(x *explore.C, windents int) Case {
 			r.Indent = 1
 		case 2:
 			r.Indent, r.Inline = 2, true
+		}
+		if r.Indent != 0 {
+			r.EOL = x.Choose("eol", 3)
 		}
 		if ttml.BareOK(d.Cues[0].Lines[0][0], *r, true) {
 			r.Bare[0][0][0] = x.Bool("bare")
@@ -1336,6 +1342,16 @@ func CheckRead(cs Case) (fs []Finding, outcome uint64) {
 	}
 	diffs := ttml.Compare(want, got)
 	if len(diffs) > 0 {
+		if cs.Render.EOL != 0 {
+			// the same document with LF line ends reads correctly: the only trigger is the CR (XML line-end normalisation)
+			lf := cs
+			lf.Render.EOL = 0
+			if s2, err2, pan2 := safeRead(lf.Doc.Bytes(lf.Render)); pan2 == "" && err2 == nil {
+				if g2, odd2 := FromSubs(s2); odd2 == "" && len(ttml.Compare(want, g2)) == 0 {
+					return []Finding{{"ttml.read.cr-line-ends-read-as-line-breaks", fmt.Sprintf("document %q\n denotes  %s\n reader returned %s\n (the same document with LF line ends reads correctly)", b, want, got)}}, 0
+				}
+			}
+		}
 		groups := classify(cs, diffs, "ttml.read")
 		for _, k := range sortedKeys(groups) {
 			fs = append(fs, Finding{k, fmt.Sprintf("document %q\n denotes  %s\n reader returned %s\n differences: %s", b, want, got, diffText(groups[k]))})
